@@ -88,12 +88,47 @@ func (t *tailBuf) Write(p []byte) (int, error) {
 func (t *tailBuf) firstFatal() string {
 	t.mu.Lock()
 	defer t.mu.Unlock()
+	if r := raceSummary(string(t.b)); r != "" {
+		return r
+	}
 	for _, l := range strings.Split(string(t.b), "\n") {
 		if strings.HasPrefix(l, "fatal error:") || strings.HasPrefix(l, "panic:") || strings.HasPrefix(l, "runtime:") || strings.HasPrefix(l, "SIG") {
 			return oneLine(l, 200)
 		}
 	}
 	return "-"
+}
+
+// raceSummary condenses a report of the race detector: the kind of the two
+// accesses and the innermost function of each that is not the runtime's.
+func raceSummary(stderr string) string {
+	i := strings.Index(stderr, "WARNING: DATA RACE")
+	if i < 0 {
+		return ""
+	}
+	var parts []string
+	lines := strings.Split(stderr[i:], "\n")
+	for k := 1; k < len(lines) && len(parts) < 2; k++ {
+		l := lines[k]
+		if !(strings.Contains(l, " by goroutine ") || strings.Contains(l, " by main goroutine")) || strings.HasPrefix(l, "Goroutine ") {
+			continue
+		}
+		kind := strings.ToLower(strings.TrimPrefix(strings.Fields(l)[0], "Previous"))
+		if strings.HasPrefix(l, "Previous ") {
+			kind = "previous " + strings.ToLower(strings.Fields(l)[1])
+		}
+		fn := "?"
+		for j := k + 1; j < len(lines) && strings.HasPrefix(lines[j], "  "); j += 2 {
+			f := strings.TrimSpace(lines[j])
+			if !strings.HasPrefix(f, "runtime.") && !strings.HasPrefix(f, "internal/") {
+				fn = f
+				break
+			}
+		}
+		fn = strings.TrimSuffix(fn, "()")
+		parts = append(parts, kind+" in "+fn)
+	}
+	return oneLine("DATA RACE: "+strings.Join(parts, " / "), 400)
 }
 
 type worker struct {
@@ -105,6 +140,7 @@ type worker struct {
 
 type pool struct {
 	exe     string
+	race    bool // exe is built with the race detector
 	dir     string
 	names   []string
 	skipped []string
@@ -119,6 +155,10 @@ func newPool() (*pool, error) {
 	if err != nil {
 		return nil, err
 	}
+	return newPoolOf(exe, false)
+}
+
+func newPoolOf(exe string, race bool) (*pool, error) {
 	dir, err := os.MkdirTemp("", "c06-search-")
 	if err != nil {
 		return nil, err
@@ -127,7 +167,7 @@ func newPool() (*pool, error) {
 		os.RemoveAll(dir)
 		return nil, err
 	}
-	p := &pool{exe: exe, dir: dir, live: map[*worker]struct{}{}}
+	p := &pool{exe: exe, race: race, dir: dir, live: map[*worker]struct{}{}}
 	// The first worker tells the scanner set.
 	w, err := p.spawn()
 	if err != nil {
@@ -141,6 +181,11 @@ func newPool() (*pool, error) {
 func (p *pool) spawn() (*worker, error) {
 	cmd := exec.Command(p.exe)
 	cmd.Env = append(os.Environ(), envWorker+"=1", envWorkerDir+"="+p.dir, "TMPDIR="+p.dir, "GOMAXPROCS=1", "GOTRACEBACK=single")
+	if p.race {
+		// A detected race ends the worker at once (exit code 66); the report on
+		// stderr names the two accesses.
+		cmd.Env = append(cmd.Env, envWorkerRace+"=1", "GORACE=halt_on_error=1 exitcode=66")
+	}
 	in, err := cmd.StdinPipe()
 	if err != nil {
 		return nil, err
@@ -305,11 +350,18 @@ func (p *pool) run(w *worker, idx []int, blob []byte, timeout time.Duration, res
 
 // evalLayer runs Init and every scanner on the blob. slot is the caller's
 // worker (replaced when it has to be killed).
-func (p *pool) evalLayer(slot **worker, blob []byte, timeout time.Duration) layerRes {
+func (p *pool) evalLayer(slot **worker, blob []byte, timeout time.Duration, concurrent bool) layerRes {
 	res := layerRes{calls: make([]callRes, len(p.names))}
-	todo := make([]int, len(p.names))
-	for i := range todo {
-		todo[i] = i
+	var todo []int
+	for i, n := range p.names {
+		if p.race {
+			// the race pool runs the concurrent calls only
+			if isPseudo(n) {
+				todo = append(todo, i)
+			}
+		} else if concurrent || !isPseudo(n) {
+			todo = append(todo, i)
+		}
 	}
 	for attempt := 0; attempt < len(p.names)+2; attempt++ {
 		if *slot == nil {
@@ -366,6 +418,8 @@ func (p *pool) evalLayer(slot **worker, blob []byte, timeout time.Duration) laye
 	return res
 }
 
+func isPseudo(name string) bool { return strings.HasPrefix(name, "concurrent/") }
+
 func (p *pool) isolate(i int, blob []byte, timeout time.Duration) string {
 	w, err := p.spawn()
 	if err != nil {
@@ -398,7 +452,9 @@ type searchState struct {
 	h      *harness
 	p      *pool
 	stats  map[string]*allocStat
+	race   bool // the pool's workers are built with the race detector: concurrent calls only
 	leaks  []string
+	diffs  []string
 	dumped map[string]bool
 }
 
@@ -525,14 +581,21 @@ func (s *searchState) record(g genLayer, res layerRes) {
 	sum := sha256.Sum256(g.blob)
 	key := hex.EncodeToString(sum[:8])
 	size := len(g.blob)
-	r.Count("search:layers")
-	r.Count("search:size:" + sizeBucket(size))
+	pre := "search:"
+	if s.race {
+		pre = "race:"
+	}
+	r.Count(pre + "layers")
+	if g.concurrent {
+		r.Count(pre + "layers-also-run-concurrently")
+	}
+	r.Count(pre + "size:" + sizeBucket(size))
 	for _, k := range g.kinds {
-		r.Count("search:kind:" + k)
+		r.Count(pre + "kind:" + k)
 	}
 	for _, m := range g.muts {
 		for _, x := range mutNames(m) {
-			r.Count("search:mut:" + x)
+			r.Count(pre + "mut:" + x)
 		}
 	}
 	fail := func(kind, scanner string, c callRes) {
@@ -545,6 +608,9 @@ func (s *searchState) record(g genLayer, res layerRes) {
 			if c.alloc > bound && g.jarInflated*8 >= c.alloc-bound && g.jarInflated > 0 {
 				class = deflateBombFinding
 			}
+		}
+		if s.race {
+			scanner += "(worker built with the race detector)"
 		}
 		s.h.fail(class, fmt.Sprintf("%s scanner=%s recipe=%s layer=%s msg=%s", kind, scanner, strings.ReplaceAll(g.recipe, " ", "_"), s.layerText(g.blob), c.msg))
 	}
@@ -560,15 +626,28 @@ func (s *searchState) record(g genLayer, res layerRes) {
 				out = "ok-empty"
 			}
 		}
-		r.Count("search:" + name + ":" + out)
+		r.Count(pre + name + ":" + out)
 		if c.status == "" {
 			return
 		}
-		r.Case(key+" "+name, c.status != "ok" || c.items > 0)
+		r.Case(pre+key+" "+name, c.status != "ok" || c.items > 0)
 		switch c.status {
 		case "panic", "crash", "hang":
 			fail(c.status, name, c)
 		case "ok", "err":
+			if isPseudo(name) || s.race {
+				// The concurrent calls: allocation is the sum over all scanners
+				// (each was measured alone already); an answer that differs from
+				// the sequential run is counted, not a verdict (the statement is
+				// about returning, not about what is returned).
+				if strings.HasPrefix(c.msg, "differs-from-sequential") {
+					r.Count(pre + name + ":differs-from-sequential")
+					if len(s.diffs) < 8 {
+						s.diffs = append(s.diffs, oneLine(c.msg, 200)+" "+g.recipe)
+					}
+				}
+				return
+			}
 			if c.leaked > 0 {
 				// Goroutines still alive shortly after the call returned and its
 				// context was cancelled. The wait is a matter of timing, so this
@@ -615,7 +694,12 @@ func (s *searchState) record(g genLayer, res layerRes) {
 // nor the order of completion can change a result; results are recorded in
 // job order.
 func (s *searchState) runJobs(jobs []job, rnd *hx.Rand) {
-	timeoutOf := func(n int) time.Duration { return hangTimeout(s.h.cfg, n) }
+	timeoutOf := func(n int) time.Duration {
+		if s.race {
+			return 8 * hangTimeout(s.h.cfg, n)
+		}
+		return hangTimeout(s.h.cfg, n)
+	}
 	slots := make([]*worker, searchWorkers)
 	defer func() {
 		for _, w := range slots {
@@ -649,7 +733,7 @@ func (s *searchState) runJobs(jobs []job, rnd *hx.Rand) {
 						return
 					}
 					layers[i] = jobs[start+i].gen(rnds[i])
-					results[i] = s.p.evalLayer(&slots[k], layers[i].blob, timeoutOf(len(layers[i].blob)))
+					results[i] = s.p.evalLayer(&slots[k], layers[i].blob, timeoutOf(len(layers[i].blob)), layers[i].concurrent)
 				}
 			}(k)
 		}
@@ -680,6 +764,8 @@ func (h *harness) searchJobs() []job {
 			g := genLayer{blob: w.build(), recipe: "witness:" + w.name, kinds: []string{"witness"}, muts: []string{"witness:" + w.name}}
 			if w.name == deflateBombWitness {
 				g.jarInflated = 64 << 20
+			} else {
+				g.concurrent = true
 			}
 			return g
 		}})
@@ -687,7 +773,11 @@ func (h *harness) searchJobs() []job {
 	// 2. hand-built tar oddities
 	for i, n := 0, h.cfg.N(2, 20)*len(oddities); i < n; i++ {
 		i := i
-		jobs = append(jobs, job{func(r *hx.Rand) genLayer { return genOddityLayer(r, i) }})
+		jobs = append(jobs, job{func(r *hx.Rand) genLayer {
+			g := genOddityLayer(r, i)
+			g.concurrent = true
+			return g
+		}})
 	}
 	// 3. layers holding a real Go executable (large)
 	for i, n := 0, h.cfg.N(3, 30); i < n; i++ {
@@ -698,18 +788,38 @@ func (h *harness) searchJobs() []job {
 			return genExeLayer(r, oo)
 		}})
 	}
-	// 4. generated layers
+	// 4. generated layers; one in eight also goes through the concurrent calls
+	// (all of those with a symbolic link in directory position do)
 	for i, n := 0, h.cfg.N(1600, 24000); i < n; i++ {
 		jobs = append(jobs, job{func(r *hx.Rand) genLayer {
 			oo := o
 			oo.wellFormed = r.Chance(1, 12)
-			return genRandomLayer(r, oo)
+			g := genRandomLayer(r, oo)
+			if r.Chance(1, 8) {
+				g.concurrent = true
+			}
+			return g
+		}})
+	}
+	// 5. usr-merged style layers: several parts, one or two directories moved
+	// behind symbolic links, every scanner at once
+	for i, n := 0, h.cfg.N(200, 3000); i < n; i++ {
+		jobs = append(jobs, job{func(r *hx.Rand) genLayer {
+			oo := o
+			oo.wellFormed = r.Chance(1, 2)
+			oo.symlinkDirs = true
+			g := genRandomLayer(r, oo)
+			g.concurrent = true
+			return g
 		}})
 	}
 	return jobs
 }
 
 func (h *harness) searchStream() {
+	raceBuilt := make(chan raceBuild, 1)
+	go func() { raceBuilt <- buildRaceWorker(h.cfg) }()
+	defer h.raceStream(raceBuilt)
 	p, err := newPool()
 	if err != nil {
 		h.r.Notes["search_error"] = err.Error()
@@ -760,6 +870,10 @@ func (h *harness) searchStream() {
 		s.leaks = []string{}
 	}
 	h.r.Notes["goroutines_left_behind"] = s.leaks
+	if s.diffs == nil {
+		s.diffs = []string{}
+	}
+	h.r.Notes["concurrent_answers_differing_from_sequential"] = s.diffs
 	if os.Getenv("C06_ALLOC_EXACT") == "1" {
 		// For recalibrating allocBoundA/B: the exact maxima, on stderr.
 		var sb bytes.Buffer
